@@ -7,7 +7,7 @@ from common import rng
 FAMILY = "ladder"
 HARNESS = {"source": "x_ladder.c", "exclude_objs": ["loop", "parser"], "leak_clean": True}
 ENV = {"VERIF_LEAKCHECK": "1"}
-RULE = ("loophdr: parse_loop on a header of n = 1..6 (15) names + a refused duplicate x every fault position; getpackets: 1, 2, 3, 9 names and 10 names of one uthash bucket x every fault position; nextpacket: packets of 1..10 items with unknown / "
+RULE = ("allloops: cif_container_get_all_loops on 1..8 loops with / without category x every fault position; loophdr: parse_loop on a header of n = 1..6 (15) names + a refused duplicate x every fault position; getpackets: 1, 2, 3, 9 names and 10 names of one uthash bucket x every fault position; nextpacket: packets of 1..10 items with unknown / "
         "text / number / list / table (nested) values, handed over or dropped x every fault position; vclone / vdeser: cif_value_clone / cif_value_deserialize of value trees with tables at any depth (12 hand-picked: empty tables, "
         "table in list in table, a bucket expansion inside a nested table; 25 / 400 random trees of depth <= 3) x every fault position; "
         "namesnorm: n = 1..5 names x every fault position; deser of table blobs: 0, 1, 3 and 11 (one bucket) keys x value "
@@ -293,6 +293,10 @@ def generate(seed, tier):
         yield q
     for q in iter_requests(r, tier):
         yield q
+    # cif_container_get_all_loops: one loop per flag (c = with category, n = without)
+    for fl in ["c", "n", "cc", "cn", "nc", "ccc", "cnc", "nnn", "ccccc"] + ["".join(r.choice("cn") for _ in range(r.randint(1, 8))) for _ in range(4 if tier == "quick" else 40)]:
+        for k in range(0, len(fl) + fl.count("c") + 3):
+            yield "ladder allloops %s %d" % (fl, k)
     # parse_loop_header + parse_loop's release of the name list: n distinct names and a refused repetition of the first
     for n in (range(1, 7) if tier == "quick" else range(1, 16)):
         total = sum(5 + 3 * i for i in range(n)) + 8
@@ -368,7 +372,9 @@ def oracle(req, impl):
             return what
     for mark, what in (("!NOITER", "cif_loop_get_packets returned CIF_OK without an iterator"), ("!ITERSET", "cif_loop_get_packets failed but set *iterator"),
                        ("!RETRY", "cif_loop_get_packets did not succeed when repeated with memory available"), ("!ITERUSE", "the iterator is not usable"),
-                       ("!PACKETSET", "cif_pktitr_next_packet failed but set *packet"), ("!PVALUE", "the packet read through the iterator does not hold the stored value")):
+                       ("!PACKETSET", "cif_pktitr_next_packet failed but set *packet"),
+                       ("!NOLOOPS", "cif_container_get_all_loops returned CIF_OK without loops"), ("!LOOPUSE", "a loop handle returned by cif_container_get_all_loops is not usable"),
+                       ("!LOOPCOUNT", "cif_container_get_all_loops returned the wrong number of loops"), ("!LOOPSSET", "cif_container_get_all_loops failed but set *loops"), ("!PVALUE", "the packet read through the iterator does not hold the stored value")):
         if mark in impl:
             return what
     for mark in ("!PNAME", "!PCOUNT", "!PITEM", "!NOPACKET", "!TEXT", "!NEWVALUE"):
